@@ -38,6 +38,9 @@ JOBS: Dict[str, Dict[str, Any]] = {
     "fail_odd": {"names": ["oh"], "method": "AM1", "converger": [1], "fails": True},
     "loose": {"names": ["hcn"], "method": "AM1", "converger": [1], "eps": 1e-4},
     "md_h2": {"md": True},
+    # a system with pairs beyond the short-range cut-offs, analytical forces: scratch arrays that are only partly written must not leak old memory
+    "far_anal": {"names": ["h2o_far"], "method": "AM1", "converger": [1], "analytical": [True]},
+    "far_num": {"names": ["h2o_far"], "method": "PM3", "converger": [1], "analytical": [True, "numerical"]},
     # shape-collision pairs: same tensor shapes (batch size, padded atom/orbital counts), different contents/order - anything cached by shape goes stale
     "mix_sp2_a": {"names": ["h2o", "ch2o", "c2h4"], "method": "AM1", "converger": [1], "sp2": [True, 1e-7]},
     "mix_sp2_b": {"names": ["ch2o", "h2o", "c2h4"], "method": "AM1", "converger": [1], "sp2": [True, 1e-7]},
@@ -94,13 +97,28 @@ def _run_job(j: Dict[str, Any], shared: Dict[str, Any] = None):
     return {k: (None if r[k] is None else np.asarray(r[k]).copy()) for k in KEYS + (["cis_energies"] if j.get("excited") else [])}
 
 
-def _child_seq(seq: List[str], nthreads, q):
+def _poison_heap():
+    """fill freed heap blocks of many sizes with a huge finite value: a result that reads memory it never wrote (torch.empty scratch arrays that are
+    only partly filled) then changes visibly instead of happening to see zeros"""
+    import torch
+
+    keep = []
+    sizes = list(range(8, 4096, 8)) + [2 ** k for k in range(12, 21)] + [3 * 2 ** k for k in range(10, 19)]
+    for n in sizes:
+        for _ in range(3):
+            keep.append(torch.full((n,), 1.0e300, dtype=torch.float64))
+    del keep
+
+
+def _child_seq(seq: List[str], nthreads, q, poison=False):
     try:
         import torch
         if nthreads:
             torch.set_num_threads(int(nthreads))
         out = None
-        for name in seq:
+        for i, name in enumerate(seq):
+            if poison and i == len(seq) - 1:
+                _poison_heap()
             out = _run_job(JOBS[name])
         q.put({"out": out})
     except BaseException:
@@ -108,10 +126,10 @@ def _child_seq(seq: List[str], nthreads, q):
         q.put({"exc": traceback.format_exc()[-1500:]})
 
 
-def _in_fresh_process(seq: List[str], nthreads=1, timeout=600):
+def _in_fresh_process(seq: List[str], nthreads=1, timeout=600, poison=False):
     ctx = mp.get_context("fork")
     q = ctx.Queue()
-    p = ctx.Process(target=_child_seq, args=(seq, nthreads, q))
+    p = ctx.Process(target=_child_seq, args=(seq, nthreads, q, poison))
     p.start()
     res = q.get(timeout=timeout)
     p.join(10)
@@ -132,8 +150,13 @@ def _diff(a, b):
 def probe_history(inp: Dict[str, Any]) -> Dict[str, Any]:
     """job J first in a fresh process == J after a prefix of other jobs"""
     fresh = _in_fresh_process([inp["job"]])
-    after = _in_fresh_process(list(inp["prefix"]) + [inp["job"]])
-    again = _in_fresh_process([inp["job"], inp["job"]])
+    # (the heap is poisoned right before the job under test in the history runs: uninitialised reads cannot hide behind zero pages)
+    after = _in_fresh_process(list(inp["prefix"]) + [inp["job"]], poison=True)
+    again = _in_fresh_process([inp["job"], inp["job"]], poison=True)
+    for lab, o in (("after the history", after), ("on repetition", again)):
+        for k_, v_ in o.items():
+            if v_ is not None and not np.isfinite(v_).all():
+                return {"ok": False, "observed": [f"{k_} of {inp['job']} is not finite {lab} (fresh process: finite)"], "expected": "history independent", "predicate": "", "fields": {"kinds": ["history"], "job": inp["job"]}}
     bad = []
     kinds = set()
     d = _diff(fresh, after)
@@ -278,13 +301,14 @@ def probe_md_driver_reuse(inp: Dict[str, Any]) -> Dict[str, Any]:
         mdh.DEFAULT_MOLS.update({k: (v[0], np.asarray(v[1]).tolist()) for k, v in esh.GEOMS.items() if k not in mdh.DEFAULT_MOLS})
         d = mdh.scratch_dir("c15reuse")
         sc = dict(engine=inp["engine"], stub=False, mols=inp["mols"], molid=[0], cad=dict(data=1), steps=inp["steps"], temp=300.0, k=inp.get("k", 4), dt=0.4,
-                  seqm=dict(method=inp.get("method", "AM1"), scf_eps=1e-9))
+                  seqm=dict(method=inp.get("method", "AM1"), scf_eps=1e-9, elements=[0, 1, 6, 8, 14, 16]))   # (one driver for several systems: the element list is given up front)
         rng = np.random.default_rng(inp["seed"])
         out = {}
         with contextlib.redirect_stdout(io.StringIO()):
             molA, md = mdh.make_md(sc, os.path.join(d, "reused"))
             md.run(molA, inp["steps"], seed=3)
-            molB, md2 = mdh.make_md(sc, os.path.join(d, "fresh"))
+            scB = dict(sc, mols=inp.get("mols2") or sc["mols"])
+            molB, md2 = mdh.make_md(scB, os.path.join(d, "fresh"))
             xB = molB.coordinates.detach().clone()
             xB = xB + (molB.species > 0).unsqueeze(-1) * torch.as_tensor(rng.normal(size=tuple(xB.shape)) * 0.05)
             sp = md2.seqm_parameters if hasattr(md2, "seqm_parameters") else dict(method="AM1", scf_eps=1e-9, scf_converger=[1], sp2=[False])
@@ -326,14 +350,20 @@ def gen_cases(ctx: Ctx):
     for i, (a, b) in enumerate(COLLIDE[1:] if ctx.thorough else COLLIDE[1:3]):
         a, b = (a, b) if (ctx.seed + i) % 2 == 0 else (b, a)
         cases.append(("history", {"job": b, "prefix": [a]}))
+    cases.append(("history", {"job": ["far_anal", "far_num"][ctx.seed % 2], "prefix": [str(v) for v in rng.choice(["batch_mndo", "w_am1", "big_am1_sp2", "cis_ch2o", "mix_a"], size=3)]}))
     cases.append(("history", {"job": "pm6_h2s_zd", "prefix": ["pm6_h2s"]}))
     cases.append(("history", {"job": ["w_am1", "pm6_h2s"][ctx.seed % 2], "prefix": [["am1_h2o_zs"], ["pm6_h2s_zd"]][ctx.seed % 2]}))
     if ctx.thorough:
         cases.append(("history", {"job": "am1_h2o_zs", "prefix": ["w_am1", "pm3_hcl_b"]}))
         cases.append(("history", {"job": "pm3_hcl_b", "prefix": ["am1_h2o_zs", "w_pm3_pulay"]}))
-    engs = ["xl", "ksa", "basic", "langevin"]
-    for i, e in enumerate(engs if ctx.thorough else [engs[ctx.seed % 2], engs[2 + ctx.seed % 2]]):
-        cases.append(("md_driver_reuse", {"engine": e, "mols": [["h2o"], ["h2o", "ch4"]][(ctx.seed + i) % 2], "steps": 6, "k": [4, 6][(ctx.seed + i) % 2], "seed": int(rng.integers(0, 10**6))}))
+    # MD driver objects re-used: the same molecule again for the XL engines (auxiliary densities), ANOTHER molecule of the same shape for the thermostatted
+    # and plain engines (per-mass constants), with the element list given up front
+    plan = [("langevin", True), (["xl", "ksa"][ctx.seed % 2], False)]
+    if ctx.thorough:
+        plan = [("langevin", True), ("xl", False), ("ksa", False), ("basic", True), ("xl", True), ("langevin", False)]
+    for i, (e, other) in enumerate(plan):
+        j = (ctx.seed + i) % 2
+        cases.append(("md_driver_reuse", {"engine": e, "mols": [["h2o"], ["h2o", "ch4"]][j], "mols2": [["h2s"], ["h2s", "sih4"]][j] if other else None, "steps": 6, "k": [4, 6][j], "seed": int(rng.integers(0, 10**6))}))
     cases.append(("threads", {"job": "batch_mndo", "threads": [2, 7, 16] if ctx.thorough else [4, 16]}))
     cases.append(("dict_reuse", {"a": "w_am1", "b": "w_am1"}))
     cases.append(("dict_reuse", {"a": "cis_ch2o", "b": "cis_ch2o"}))
